@@ -322,20 +322,25 @@ def parseQueryLargeTlv (c : Cfg) (g : Glob) (w : World) (st : St) (img : List Na
     { o with w := o.w.free 64 }
   else sendLargeTlvResponse c w st img none offset
 
+/-- the generation slot value answerHello puts into the Hello (after its own "store if empty" step) -/
+def helloGen (st : St) (img : List Nat) : Nat :=
+  let s := setActiveMapper st (fRealSrc img) (fEthSrc img)
+  let slot := if fTos img = X.tosQuick then s.genQuick else s.genTopo
+  if slot = 0 ∧ fDiscGen img ≠ 0 then fDiscGen img else slot
+
+def helloFrame (c : Cfg) (g : Glob) (gen tos : Nat) (cur app : Mac) : List Nat :=
+  lltdHeader 0 bcast c.ourMac bcast c.ourMac 0 X.opHello tos ++ helloHeader gen cur app ++ helloTlvs c g
+
 /-- answerHello -/
 def answerHello (c : Cfg) (g : Glob) (w : World) (st : St) (img : List Nat) : Out :=
   let mtu := c.mtuEff
   let (w, ok) := w.malloc mtu
   if !ok then { st := st, w := w, fx := [] } else
+  let gen := helloGen st img
   let st := setActiveMapper st (fRealSrc img) (fEthSrc img)
   let st := { st with seq := fSeq img }
-  let gen := fDiscGen img
-  let quick := fTos img = X.tosQuick
-  let slot := if quick then st.genQuick else st.genTopo
-  let slot' := if slot = 0 ∧ gen ≠ 0 then gen else slot
-  let st := if quick then { st with genQuick := slot' } else { st with genTopo := slot' }
-  let frame := lltdHeader 0 bcast c.ourMac bcast c.ourMac 0 X.opHello (fTos img)
-                ++ helloHeader slot' (fRealSrc img) (fEthSrc img) ++ helloTlvs c g
+  let st := if fTos img = X.tosQuick then { st with genQuick := gen } else { st with genTopo := gen }
+  let frame := helloFrame c g gen (fTos img) (fRealSrc img) (fEthSrc img)
   if frame.length > mtu then { st := st, w := w, fx := [], fault := some (.oobWrite "answerHello.buffer") } else
   let (w, f, _) := sendFx c w frame
   { st := st, w := w.free mtu, fx := [f] }
